@@ -1252,7 +1252,12 @@ func (e *Exec) commit(bi int, rec *blockRecord, h int64) {
 		}
 		// C12 through BaseApp: Info reports the committed height and hash
 		info := e.reps[0].app.Info(abci.RequestInfo{})
-		if info.LastBlockHeight != h || !bytes.Equal(info.LastBlockAppHash, canonHash) {
+		// (when every replica died inside this Commit there is no hash a Commit returned: the recovered replica's own
+		// replayed Commit is what Info must agree with, and the recovery path has compared that already)
+		if canonHash == nil && e.reps[0].hashes[h] != nil {
+			canonHash = e.reps[0].hashes[h]
+		}
+		if canonHash != nil && (info.LastBlockHeight != h || !bytes.Equal(info.LastBlockAppHash, canonHash)) {
 			e.addViol(viol("C12", "info-after-commit", e.step, nil, "Info reports height %d hash %x after Commit of height %d returned %x", info.LastBlockHeight, info.LastBlockAppHash, h, canonHash))
 		}
 	}
